@@ -60,6 +60,24 @@ pub struct Tag {
 }
 
 impl Tag {
+    /// the same tag written with another delimiter set
+    fn source_with(&self, d: &Delims) -> String {
+        let (l, r) = (self.left.s(), self.right.s());
+        let pad = if self.body == Body::Padded { " " } else { "" };
+        match self.kind {
+            Kind::Var => format!("{}{}{}v{}{}{}", d.var.0, l, pad, pad, r, d.var.1),
+            Kind::Block => format!("{}{}{}set x = 1{}{}{}", d.block.0, l, pad, pad, r, d.block.1),
+            Kind::Comment => {
+                if self.body == Body::Empty {
+                    format!("{}{}{}{}", d.comment.0, l, r, d.comment.1)
+                } else {
+                    format!("{}{}{}c{}{}{}", d.comment.0, l, pad, pad, r, d.comment.1)
+                }
+            }
+            Kind::Raw => format!("{}{} raw {}{}{}{}{} endraw {}{}", d.block.0, l, self.inner_l.s(), d.block.1, self.content, d.block.0, self.inner_r.s(), r, d.block.1),
+        }
+    }
+
     fn source(&self) -> String {
         let (l, r) = (self.left.s(), self.right.s());
         match (self.kind, self.body) {
@@ -779,6 +797,89 @@ pub fn main(args: Args) -> i32 {
         });
         acc.count("ws_compact_body_sources", total + total2);
     }
+    // family E: the whitespace rules under every delimiter set without line prefixes - one tag
+    // (ordinary and compact) between all pairs of core texts under all settings, two ordinary tags
+    // between blank texts under the two extreme settings.  The model does not know about delimiters.
+    {
+        let sets: Vec<Delims> = delim_family().into_iter().filter(|d| d.line_stmt.is_none() && d.line_comment.is_none()).collect();
+        acc.count("ws_delimiter_sets", sets.len() as u64);
+        let mut singles = tags.clone();
+        singles.extend(compact_tags());
+        let core = TEXTS_CORE;
+        let blanks: [&'static str; 3] = ["", " ", "\n"];
+        par_items(&sets, &acc, |_, d, l| {
+            let Ok(syntax) = syntax_of(d) else { return };
+            let envs: Vec<Environment<'static>> = cfgs
+                .iter()
+                .map(|c| {
+                    let mut e = make_env(*c);
+                    e.set_syntax(syntax.clone());
+                    e
+                })
+                .collect();
+            let mut judge = |texts: &[&'static str], tg: &[Tag], ci: usize, l: &mut Local| {
+                let mut src = String::new();
+                for i in 0..texts.len() {
+                    src.push_str(texts[i]);
+                    if i < tg.len() {
+                        src.push_str(&tg[i].source_with(d));
+                    }
+                }
+                l.evals += 1;
+                let got = catch(|| envs[ci].render_str(&src, context! { v => "<V>" }).map_err(|e| e.to_string()));
+                let exp = model(texts, tg, cfgs[ci]);
+                if got != Ok(Ok(exp.clone())) {
+                    acc.fail(Failure {
+                        key: format!("ws mismatch_under_delimiters set={} tags=[{}] trim_blocks={} lstrip_blocks={}", d.name, tg.iter().map(|t| format!("{:?}", t.kind)).collect::<Vec<_>>().join(","), cfgs[ci].trim_blocks, cfgs[ci].lstrip_blocks),
+                        case: format!("{:?} cfg={} set={}", src, ci, d.name),
+                        detail: format!("source {:?} under {}: engine {:?} model {:?}", src, d.name, got, exp),
+                        replay: json!({"family": "ws_delims", "source": src, "set": d.name, "cfg": ci, "expect": exp}),
+                    });
+                } else {
+                    l.outcome("whitespace rules hold under custom delimiters");
+                    if ci == 6 {
+                        l.nontrivial.insert(fnv(format!("{}|{}", d.name, src).as_bytes()));
+                    }
+                }
+            };
+            for t in &singles {
+                if t.kind == Kind::Raw && t.body != Body::Padded {
+                    continue;
+                }
+                // `<!---->` is not an empty comment under comment delimiters `<!--` / `-->`: the
+                // first byte of the end delimiter reads as a left marker.  Such spellings are
+                // ambiguous in the source language itself and are not generated.
+                let end = match t.kind {
+                    Kind::Var => d.var.1,
+                    Kind::Comment => d.comment.1,
+                    _ => d.block.1,
+                };
+                if t.body != Body::Padded && t.left == Mk::None && (end.starts_with('-') || end.starts_with('+')) {
+                    continue;
+                }
+                for a in core {
+                    for b in core {
+                        for ci in 0..cfgs.len() {
+                            judge(&[a, b], std::slice::from_ref(t), ci, l);
+                        }
+                    }
+                }
+            }
+            for t1 in &tags {
+                for t2 in &tags {
+                    for a in blanks {
+                        for b in blanks {
+                            for c in blanks {
+                                for ci in [0usize, 7] {
+                                    judge(&[a, b, c], &[t1.clone(), t2.clone()], ci, l);
+                                }
+                            }
+                        }
+                    }
+                }
+            }
+        });
+    }
     // delimiter metamorphosis over the program corpus
     let opts2 = gen::Opts { depth: 2, max_programs: u64::MAX, multi_template: false, loop_controls: true };
     check_delims(opts2, 1, &acc);
@@ -796,7 +897,7 @@ pub fn main(args: Args) -> i32 {
             level: "exploration",
             tier: args.tier,
             seed: args.seed,
-            rule: "whitespace: every source text0 tag1 text1 tag2 text2 over a 14-text alphabet and 36 tags ({variable, set tag, comment, raw..endraw} x left marker x right marker in {none,-,+}) x 8 settings (thorough: plus three tags over a 6-text core alphabet); 34 tags written without blanks or, for comments, without a body ({{-v-}}, {%-set x = 1-%}, {#-c-#}, {#-#}, {#--#}, {##} ...) alone between all texts and next to every ordinary tag over the core texts; every single raw block with all 81 outer/inner marker combinations x 6 contents x 14^2 texts x 8 settings; engine output compared with an independent model of the rules as the property names them (lstrip judged on the original source). delimiters: every program of the depth-2 space of G (thorough: plus every 29th program of the depth-3 space, a systematic subset, reported under delimiter_program_stride) x 3 contexts rewritten token by token to each of 10 delimiter sets must render identically (or fail with the same error kind); default-looking delimiters as text must come out verbatim; line statements/comments compared with the tag occupying the line. distinct non-trivial = distinct one- and two-tag sources in which trim_blocks+lstrip_blocks strips something (three-tag sources are not counted, conservatively) + distinct rewritten sources".into(),
+            rule: "whitespace: every source text0 tag1 text1 tag2 text2 over a 14-text alphabet and 36 tags ({variable, set tag, comment, raw..endraw} x left marker x right marker in {none,-,+}) x 8 settings (thorough: plus three tags over a 6-text core alphabet); 34 tags written without blanks or, for comments, without a body ({{-v-}}, {%-set x = 1-%}, {#-c-#}, {#-#}, {#--#}, {##} ...) alone between all texts and next to every ordinary tag over the core texts; every single raw block with all 81 outer/inner marker combinations x 6 contents x 14^2 texts x 8 settings; engine output compared with an independent model of the rules as the property names them (lstrip judged on the original source). whitespace x delimiters: under each of the delimiter sets without line prefixes, one tag (36 ordinary + 34 compact) between all pairs of core texts under all 8 settings and two ordinary tags between blank texts under the two extreme settings, against the same model; delimiters: every program of the depth-2 space of G (thorough: plus every 29th program of the depth-3 space, a systematic subset, reported under delimiter_program_stride) x 3 contexts rewritten token by token to each of 10 delimiter sets must render identically (or fail with the same error kind); default-looking delimiters as text must come out verbatim; line statements/comments compared with the tag occupying the line. distinct non-trivial = distinct one- and two-tag sources in which trim_blocks+lstrip_blocks strips something (three-tag sources are not counted, conservatively) + distinct rewritten sources".into(),
             exhaustive: true,
             bound: json!({"texts": TEXTS_FULL, "texts_core": TEXTS_CORE, "delimiter_sets": delim_family().iter().map(|d| d.name).collect::<Vec<_>>()}),
             assumptions: vec![
